@@ -216,6 +216,22 @@ def run_c06(chk):
         fcases = fcases[:6000]
     resf = chk.replay("wire-c06doc", fcases, "faultdocs", workers=W, timeout="20s")
     chk.absorb("wire-c06doc", fcases, resf, crash_sig=panic_sig("C06"))
+    # kind sweep: every scalar kind x {singular, optional, array, map} x every wrong-shaped value (the token model's universal
+    # type only has string / enum / object / oneof collections), incl. huge exponents and long digit strings for numeric kinds
+    values = ["null", "true", "1", "-1", "1.5", "1e400", "1e50000000", "-1e-50000000", "9" * 400, '"x"', '""', '"1e50000000"', '"' + "9" * 400 + '"',
+              "[]", "{}", "[null]", '{"k":null}', "[[]]", "[{}]", '{"k":[]}', '{"k":{}}', '[1,null]', '{"!type":"a"}', '{"!type":null}',
+              '[true]', '["x"]', '{"k":true}', '{"k":"x"}', '{"k":1.5}', '[1.5]', '"2024-02-30"', '"0000-00-00"', '"-1"']
+    sweep = []
+    for k in range(19):
+        for card in "samo":
+            for v in values:
+                sweep.append({"kind": k, "card": card, "value": v, "query": False})
+        for v in ["", " ", "true", "1e50000000", "9" * 400, "{", "[", "{}", "null", "x", "%"]:
+            for card in "sa":
+                sweep.append({"kind": k, "card": card, "value": v, "query": True})
+    ress = chk.replay("wire-sweep", sweep, "sweep", workers=W, timeout="20s")
+    chk.absorb("wire-sweep", sweep, ress, crash_sig=lambda c, e, sig: sig + "|kind=%d|card=%s|%s" % (c["kind"], c["card"], "query" if c["query"] else "json"))
+    chk.extra_cov["kind_sweep_cases"] = len(sweep)
     # residual: plain seeded random testing below the model's alphabet (random / mutated bytes, deep nesting, huge numbers)
     nrand = 20000 if quick else 400000
     per = 500
